@@ -5,41 +5,40 @@ from pyvc.spec import contract, inline, And, Or, Not, implies, ite, R
 from .common import dt_wf, whole_days, US_PER_DAY
 from .country import COUNTRY_MODULES
 
-EARN_TYPES = ["AIRDROP", "HARDFORK", "INCOME", "INTEREST", "MINING", "STAKING", "WAGES"]      # from the statement of C03
+from .transactions import (TOL, tx_inv, tx_fmt, out_consistent, earning_spec, taxable_spec, need, cbc_field, taxable_value, ts, i_in, is_in, is_out, is_intra)
+
+GL = "rp2.gain_loss.GainLoss"
 
 
-def tt(ex, name):
-    return ex.enum_member("rp2.entry_types.TransactionType", name).t
-
-
-def is_in(s, tx):  return tx.isa("InTransaction")
-def is_out(s, tx): return tx.isa("OutTransaction")
-def is_intra(s, tx): return tx.isa("IntraTransaction")
-
-
-def earn_type(s, tx):
-    t = tx.f("AbstractTransaction.__transaction_type")
-    return Or(*[t.t == tt(s.ex, n) for n in EARN_TYPES])
-
-
-def is_earning_spec(s, tx):
-    """Statement: earn-typed acquisitions (an in-transaction of one of the seven earn types)."""
-    return And(is_in(s, tx), earn_type(s, tx))
+def ev_of(g): return g.f("GainLoss.__taxable_event")
+def lot_of(g): return g.f("GainLoss.__acquired_lot")
+def amt_of(g): return g.f("GainLoss.__crypto_amount")
 
 
 def valid_gain_loss(s, g):
-    """What GainLoss.__init__ establishes (its normal-return postcondition) and every other method may assume."""
-    ev = g.f("GainLoss.__taxable_event")
-    lot = g.f("GainLoss.__acquired_lot")
-    amt = g.f("GainLoss.__crypto_amount")
-    ev_ts = ev.f("AbstractTransaction.__timestamp")
-    lot_ts = lot.some.f("AbstractTransaction.__timestamp")
+    """What GainLoss.__init__ establishes (its normal-return postcondition); objects are immutable, so every method may assume it."""
+    ev, lot, amt = ev_of(g), lot_of(g), amt_of(g)
     return And(
-        lot.is_none == is_earning_spec(s, ev),
-        dt_wf(ev_ts),
-        implies(lot.not_none, And(dt_wf(lot_ts), lot_ts.inst <= ev_ts.inst)),
-        amt.t >= 0,
+        tx_inv(s, ev),
+        taxable_spec(s, ev),
+        lot.is_none == earning_spec(s, ev),
+        amt.t > TOL,
+        cbc_field(s, ev) >= amt.t - TOL,
+        implies(earning_spec(s, ev), And(amt.t - cbc_field(s, ev) <= TOL, cbc_field(s, ev) - amt.t <= TOL)),
+        implies(lot.not_none, And(tx_inv(s, lot.some), is_in(lot.some), i_in(lot.some, "crypto_in").t >= amt.t - TOL,
+                                  ts(lot.some).inst <= ts(ev).inst)),
     )
+
+
+def proceeds_spec(s, g):
+    """C04: the event's taxable fiat value pro-rated by fraction amount over the event's total outgoing amount."""
+    return taxable_value(s, ev_of(g)) * amt_of(g).t / need(s, ev_of(g))
+
+
+def cost_spec(s, g):
+    """C04: the lot's fiat cost including acquisition fee pro-rated by fraction amount over lot amount; zero without a lot."""
+    lot = lot_of(g)
+    return ite(lot.is_none, R(0), i_in(lot.some, "fiat_in_with_fee").t * amt_of(g).t / i_in(lot.some, "crypto_in").t)
 
 
 def threshold_reached(s, country, days):
@@ -59,18 +58,62 @@ def country_wf(s, country):
     return implies(isa("generic"), country.f("Generic.__long_term_capital_gain_period") >= 0)
 
 
-@contract("rp2.gain_loss.GainLoss.is_long_term_capital_gains", props=["C05", "C06", "C13", "C14"])
+@contract(GL + ".__init__", props=["C02", "C03", "C04", "C05"])
+def _(k):
+    k.requires("event_inv", lambda s: And(tx_inv(s, s.a.taxable_event), tx_fmt(s, s.a.taxable_event)))
+    k.requires("lot_inv", lambda s: implies(s.a.acquired_lot.not_none, tx_inv(s, s.a.acquired_lot.some)))
+    k.ensures("fields_stored", lambda s: And(ev_of(s.a.self) == s.a.taxable_event, amt_of(s.a.self) == s.a.crypto_amount,
+                                             lot_of(s.a.self).is_none == s.a.acquired_lot.is_none,
+                                             implies(s.a.acquired_lot.not_none, lot_of(s.a.self).t == s.a.acquired_lot.t),
+                                             s.a.self.f("AbstractEntry.__configuration") == s.a.configuration))
+    k.ensures("valid", lambda s: valid_gain_loss(s, s.a.self))
+    k.raises("RP2ValueError")
+    k.raises("RP2TypeError")
+
+
+@contract(GL + ".is_long_term_capital_gains", props=["C05", "C06", "C13", "C14"])
 def _(k):
     def post(s):
         g = s.a.self
-        ev = g.f("GainLoss.__taxable_event")
-        lot = g.f("GainLoss.__acquired_lot")
-        d, ddef = whole_days(ev.f("AbstractTransaction.__timestamp"), lot.some.f("AbstractTransaction.__timestamp"))
+        ev, lot = ev_of(g), lot_of(g)
+        d, ddef = whole_days(ts(ev), ts(lot.some))
         country = g.f("AbstractEntry.__configuration").f("Configuration.__country")
         return implies(And(lot.not_none, ddef), s.result.t == threshold_reached(s, country, d))
     k.requires("valid", lambda s: valid_gain_loss(s, s.a.self))
     k.requires("country_wf", lambda s: country_wf(s, s.a.self.f("AbstractEntry.__configuration").f("Configuration.__country")))
-    k.ensures("income_is_short_term", lambda s: implies(s.a.self.f("GainLoss.__acquired_lot").is_none, s.result.t == False))
+    k.ensures("income_is_short_term", lambda s: implies(lot_of(s.a.self).is_none, s.result.t == False))
     k.ensures("long_iff_days_ge_threshold", post)
     k.raises_never("Exception")
     k.modifies()
+
+
+def _figure(prop, f, label, props=("C04",), consistent=True):
+    @contract(GL + "." + prop, props=list(props))
+    def _(k):
+        k.requires("valid", lambda s: valid_gain_loss(s, s.a.self))
+        if consistent:
+            k.requires("out_consistent", lambda s: out_consistent(s, ev_of(s.a.self)))
+        k.ensures(label, lambda s: s.result.t == f(s, s.a.self))
+        k.raises_never("Exception")          # includes division by zero and the "Internal error" raises
+        k.modifies()
+
+
+_figure("taxable_event_fiat_amount_with_fee_fraction", proceeds_spec, "proceeds_prorated")
+_figure("fiat_cost_basis", cost_spec, "cost_prorated", consistent=False)
+_figure("acquired_lot_fiat_amount_with_fee_fraction", cost_spec, "cost_prorated", consistent=False)
+_figure("fiat_gain", lambda s, g: proceeds_spec(s, g) - cost_spec(s, g), "gain_is_proceeds_minus_cost")
+_figure("taxable_event_fraction_percentage", lambda s, g: amt_of(g).t / need(s, ev_of(g)), "fraction_of_event")
+_figure("acquired_lot_fraction_percentage", lambda s, g: ite(lot_of(g).is_none, R(0), amt_of(g).t / i_in(lot_of(g).some, "crypto_in").t), "fraction_of_lot", consistent=False)
+
+
+from pyvc.spec import lemma
+
+
+@lemma("C04.sum_of_parts", props=["C04"])
+def _(lm):
+    """Induction behind 'the pieces add back to the whole': S_j = W*A_j/T  =>  S_j + W*a_j/T = W*(A_j + a_j)/T, base S_0 = 0,
+    conclusion at A_n = T.  W = taxable fiat value (resp. lot cost), T = total outgoing amount (resp. lot amount), T != 0."""
+    W, T, A, a, Sj = z3.Reals("W T A a Sj")
+    lm.case("base", lambda ex: ([T != 0], W * 0 / T == 0))
+    lm.case("step", lambda ex: ([T != 0, Sj == W * A / T], Sj + W * a / T == W * (A + a) / T))
+    lm.case("conclusion", lambda ex: ([T != 0, Sj == W * A / T, A == T], Sj == W))
